@@ -125,6 +125,7 @@ CWF = [
 ''', cid='check_write_file.contract'),
     ins(A.text('return Ok(());'), 'proof { assert(buf@ == output@); assert(log.files[pid(outfile)] == output@); }\n            ', where='before'),
     rep(A.text('fs::read(outfile)'), 'outlined_fs_read(outfile, Tracked(&*log))', tag='T3', cid='o_read'),
+    rep(A.text('outfile.is_file()'), 'outlined_is_file(outfile, Tracked(&*log))', tag='T3', cid='o_isfile'),
     drop(A.text('info!("Skipping writing to {outfile:?} no changes");'), tag='T6', note='logging'),
     rep(A.span('outfile .parent()', 'format!("Could not get parent for {outfile:?}"))'), 'outlined_parent(outfile)', tag='T3', cid='o_parent'),
     rep(A.text('out_dir.exists()'), 'outlined_exists(out_dir)', tag='T3', cid='o_exists'),
@@ -265,6 +266,8 @@ impl Swift {
         'o_read': dict(NC, decl='''fn outlined_fs_read(outfile: &Path, Tracked(log): Tracked<&FsLog>) -> (r: Result<Vec<u8>, IoError>)
     ensures match r { Ok(buf) => log.files.dom().contains(pid(outfile)) && buf@ == log.files[pid(outfile)],
                       Err(_) => !log.files.dom().contains(pid(outfile)) }'''),
+        'o_isfile': dict(NC, decl='''fn outlined_is_file(outfile: &Path, Tracked(log): Tracked<&FsLog>) -> (r: bool)
+    ensures r == log.files.dom().contains(pid(outfile))   // the ghost file system holds regular files only: a pipe or device is not one of them'''),
         'o_parent': dict(NC, decl="fn outlined_parent<'a>(outfile: &'a Path) -> (r: Result<&'a Path, AnyhowError>)"),
         'o_exists': dict(NC, decl='fn outlined_exists(out_dir: &Path) -> bool'),
         'o_mkdir': dict(NC, decl='''fn outlined_create_dir_all(out_dir: &Path, Tracked(log): Tracked<&mut FsLog>) -> (r: Result<(), AnyhowError>)
